@@ -14,9 +14,7 @@ Line-protocol driver for the C11 model (model + generated schemas only).
   RT <cls> <fuel> <hex>
       decode <hex> with the *read* codec extracted for <cls> (its tag first if it has one), re-encode the
       value with the *write* codec → ok used=<n> left=<m> reenc=same | ok … reenc=diff@<i> | fail
-  FV <cls> <fuel> <hex>
-      decode and list the top-level named scalar slots:  name=i<int>|s<hex>|b<0/1>|f<bits> ; …
-  SK <hex>            → skip one tagged object (`_skip_object` after `read_tag`): ok <rest hex> | err
+  XS <fuel> <hex>     → `extract_symbol`: ok <bytes extracted> <bytes left> | err
 -/
 open Codec Codec.K
 
@@ -50,21 +48,6 @@ def firstDiff : List Nat → List Nat → Nat → Option Nat
   | _, _, i => some i
 
 def bits (bs : List Bool) : String := String.ofList (bs.map fun b => if b then '1' else '0')
-
-partial def scalars : Val → List String
-  | .fld n (.int i) => [s!"{n}=i{i}"]
-  | .fld n (.str s) => [s!"{n}=s{hx s}"]
-  | .fld n (.bytes s) => [s!"{n}=y{hx s}"]
-  | .fld n (.bool b) => [s!"{n}=b{if b then 1 else 0}"]
-  | .fld n (.pair .unit (.int i)) => [s!"{n}=i{i}"]
-  | .fld n (.variant t .unit) => [s!"{n}=t{t}"]
-  | .fld n (.variant _ (.str s)) => [s!"{n}=s{hx s}"]
-  | .fld n (.variant _ (.int i)) => [s!"{n}=i{i}"]
-  | .fld n v => if v.isList then [s!"{n}=l{v.len}"] else []
-  | .flags bs => [s!"flags=f{bits bs}"]
-  | .pair a b => scalars a ++ scalars b
-  | .variant _ v => scalars v
-  | _ => []
 
 def step (line : String) : String :=
   let ws := (line.trimAscii.toString.splitOn " ").filter (· ≠ "")
@@ -112,12 +95,11 @@ def step (line : String) : String :=
       match firstDiff re (bs.take used) 0 with
       | none => s!"ok used={used} left={rest.length} reenc=same"
       | some i => s!"ok used={used} left={rest.length} reenc=diff@{i}"
-  | ["FV", cls, fuel, h] =>
-    let bs := parseHex h
-    let f := fuel.toNat?.getD 64
-    match dec envRd f (topCodec cls) bs with
-    | none => "fail"
-    | some (v, _) => " ; ".intercalate (scalars v)
+  | ["XS", fuel, h] =>
+    match extractSymbol (fuel.toNat?.getD 64) (parseHex h) with
+    | some (b, r) => s!"ok {b.length} {r.length}"
+    | none => "err"
+  | ["XS", _] => "err"
   | _ => "bad-op"
 
 partial def loop (h : IO.FS.Stream) : IO Unit := do
